@@ -14,6 +14,7 @@ import (
 func TestMain(m *testing.M) {
 	if os.Getenv("VSIM_WORKER") != "" {
 		zzmain.TBRun = run
+		zzmain.TBMain = main
 		zzmain.Init()
 		os.Exit(zzmain.Main())
 	}
